@@ -2,30 +2,45 @@
 // Unit vbaproj: the wiring of a VBA project -- src/vba.rs VbaProject::from_cfb, verbatim text (C18: "the module list contains exactly the
 // project's modules by name, each module's raw content is exactly the decompression of its source container from the recorded offset").
 //
-// Under contract (verified): VbaProject::from_cfb (entry: C06 obligations of its text, incl. the slice `&s[m.text_offset..]` in the closure).
+// Under contract (verified on the real text):
+//   VbaProject::from_cfb   (entry; C06: every implicit obligation of its text, incl. the slice `&s[m.text_offset..]` inside the closure)
+//   read_dir_information   (entry; C18.dir_codepage as in unit vbadec, plus the NEW clause C18.dir_info_consumed: where the cursor stands
+//                           afterwards -- vbadec's contract does not say, from_cfb needs it to tie the reference array to the dir stream)
 // Composed from contracts PROVED IN OTHER UNITS on the real text (here `external_body` on the extracted functions, clause text copied):
-//   unit cfb     Cfb::get_stream            C13.get_stream_frame, stream_not_found, get_stream_reads_logical_stream
+//   unit cfb     Cfb::get_stream            requires wf; C13.get_stream_frame, stream_not_found, get_stream_reads_logical_stream
 //   unit vbadec  cfb::decompress_stream     C18.decode, bad_container_signature_rejected, C06.empty_container_rejected
-//   unit vbadec  read_dir_information       C18.dir_codepage
+//   unit vbadec  skip, check_variable_record  C18.skip_ok, skip_err_iff_short, check_var_record_ok, check_var_record_wrong_id_rejected
 //   unit vbadec  read_modules               C18.module_count, module_name_stream_offset, modules_consumed
 //   unit names   Reference::from_stream     C18.reference_array_wellformed_if_ok, reference_names_in_order,
 //                                           reference_descriptions_from_their_libids, reference_array_consumed
+// (Sectors::get / get_chain, read_variable_record, check_record, Reference::set_libid are extracted without contract, only so that the
+// unverified bodies compile.)
 // Specification text copied from those units (same definitions): [MS-OVBA] 2.4.1 `decode` / `valid_container` (vbadec), [MS-OVBA] 2.3.4.2
 // dir stream (`dir_codepage`, `nth_mod`, `mod_*`: vbadec; `ref_walk`, `ev_names`, `refs_fold`: names), [MS-CFB] logical content of a
 // container (`Parsed`, `reads_as`, `logical_stream`, `has_name`: cfb).
 //
-// What from_cfb's contract says (C18): a successful run is described by a ghost `Run` (the_run): the dir stream is what the container
-// holds under the name "dir", decompressed; code page, references and MODULE records are what the three parsers return on it, in this
-// order on one cursor; for every MODULE record k the bytes looked up are those the container holds under mods[k].STREAM_NAME (not the
-// module name), cut at mods[k].text_offset and decompressed, and bound to mods[k].NAME in the result map; the map is the fold of these
-// bindings in record order (a later module of the same name replaces an earlier one, as BTreeMap's FromIterator does).
-// Err clauses: no "dir" stream; a module whose stream is absent; a text offset beyond the stream.
+// What from_cfb's contract says (C18).  A successful run is described by a ghost `Run` (`the_run`): the dir stream is what the container
+// holds under the name "dir", decompressed (run_dir); code page and start of the reference array are what read_dir_information finds in
+// it (run_info); `references` is what Reference::from_stream returns there and the array ends where PROJECTMODULES starts (run_refs); the
+// MODULE records are what read_modules returns there (run_mods); for every MODULE record k the bytes looked up are those the container
+// -- in the state it has at that moment: same directory, FAT, mini FAT and sector size as at entry -- holds under mods[k].STREAM_NAME
+// (not the module name), they are cut at mods[k].text_offset and decompressed (run_streams); the result map is the fold, in record order,
+// of the bindings mods[k].NAME -> data k (run_map: a later module of the same name replaces an earlier one, as BTreeMap's FromIterator
+// does).  Proved consequences: the keys are exactly the module names (run_keys), a name is bound to the data of its last record
+// (run_last_binding).  Err clauses: no "dir" entry; a module whose stream name is not a directory entry (run_streams_exist, contrapositive
+// on Ok); a text offset beyond the module's stream (closure clause + run_offsets_in_streams).  The container's directory / FATs are unchanged.
+// All `run_*` predicates are opaque: a wrong result fails the labelled clause cheaply instead of exhausting the resource limit.
 //
 // Declared rewrites of real code (two `replace` directives, logged in the evidence): `mods.into_iter().map(|m| { BODY })
 // .collect::<Result<_, _>>()?` is unfolded into `for m in mods { let __item = { BODY }; let __pair = __item?; __pairs.push(__pair); }`
 // followed by the trusted `verif_collect_btreemap(__pairs)`.  BODY -- `cfb.get_stream(&m.stream_name, r).and_then(|s| { guard;
-// decompress_stream(&s[m.text_offset..]).map(move |s| (m.name, s)) })` -- is NOT touched: it stays where it is in the source text (the
-// two inner closures only receive a Verus signature through `//@@ closure`), so any edit of it reaches the verifier.
+// decompress_stream(&s[m.text_offset..]).map(move |s| (m.name, s)) })` -- is NOT touched and NOT captured: it stays where it is in the
+// source text (the two inner closures only receive a Verus signature through `//@@ closure 1` / `closure 2`), so any edit of it reaches
+// the verifier and log statements in it are dropped by R1 as everywhere else.
+// Trusted in this unit: `Result::and_then` (assume_specification), `verif_collect_btreemap` (BTreeMap's FromIterator = fold of inserts;
+// `map_deep` is uninterpreted), the stand-ins copied from vbadec / names / cfb (A-io reader, byteorder, XlsEncoding, log_enabled).
+// Not pinned down: `Reference::path`; that the container state stays the same between two lookups (unit cfb's frame clause guarantees
+// directory, FAT, mini FAT, sector size; the loaded sector space may grow) -- module k is tied to the state at ITS lookup.
 #![feature(allocator_api)]
 #![feature(pattern)]
 #![allow(unused_imports, dead_code, unused_variables, unused_mut, unused_assignments, unexpected_cfgs, deprecated, unused_braces)]
